@@ -4,9 +4,12 @@
 (* behaviour, replayed against EventBuilder.Build / the parse paths /      *)
 (* SetUnsigned / Sign / Redact by harness/cmd/c03 (commands c03 and c04).  *)
 (*   ops     [fam, ver, shape, variant, proto, steps: [op, arg, idc, red]] *)
+(*   sid     as ops (fam "sid"): proto.sname / proto.skey enumerated        *)
 (*   sib     [fam, ver, ..., proto, pre, f, proto2, same]                  *)
-(*   tamper  [fam, ver, ..., proto, pre, T, hm, kout, kin, red, topk,      *)
+(*   tamper  [fam, ver, ..., proto, pre, sp, T, hm, kout, kin, red, topk,  *)
 (*            conk, tpik, idsame, valid, signers]                          *)
+(*   dup     [fam, ver, ..., proto, m, pos, sp, hm, styp, first, last]     *)
+(*           (a member written twice; first / last: the two readings)      *)
 (***************************************************************************)
 EXTENDS EventIdentity, Json
 
@@ -31,31 +34,49 @@ PreSib == {"none", "RU", "RD", "AS2", "SU1"}
 PreSibQuick == {"none", "RD"}
 PreTamper == {"none", "AS2", "SU1", "RD"}
 PreTamperQuick == {"none", "AS2", "RD"}
+\* C04, spelling / multiplicity dimensions: the quick tier enumerates them on a spread of room versions (both event
+\* formats, every redaction algorithm but 3, domainless room IDs, an unstable version) and on six shapes
+VersionsSpread == {"1", "3", "6", "10", "11", "12", "org.matrix.msc4014"}
+NoVersions == {}
 SibAll == AllSibFields
 NoFields == {}
+\* family sid (signer identities): every server-name spelling and every key-ID spelling with every room version
+NoSid == {}
+SidQuick == {sp \in AllSpellings : sp[1] = "dns" \/ sp[2] = "alnum"} \cup {<<"ipv6port", "long">>, <<"long", "under">>}
+SidAll == AllSpellings
+ShapesSidQuick == {1}
+ShapesSid == {1, 5, 7, 12}
+AlphabetSid == {"RU", "RT", "RH", "AS1", "AS2", "RD"}
 
 ProtoJson(p) ==
     [type |-> p.type, sk |-> p.sk, redacts |-> p.redacts, num |-> p.num, lim |-> p.lim, con |-> p.con, tpiobj |-> p.tpi.obj, tpi |-> p.tpi.keys,
      prev |-> p.prev, auth |-> p.auth, depth |-> p.depth, unsigned |-> p.unsigned, room |-> p.room,
-     sender |-> p.sender, ts |-> p.ts, origin |-> p.origin, sigkey |-> p.sigkey]
+     sender |-> p.sender, ts |-> p.ts, origin |-> p.origin, sigkey |-> p.sigkey,
+     sname |-> p.sname, skey |-> p.skey]
 
 Complete ==
     \/ phase = "refused"
-    \/ (Family \in {"ops", "num", "len"} /\ Len(hist) = MaxOps)
-    \/ (Family \notin {"ops", "num", "len"} /\ phase = "done")
+    \/ (Family \in OpsFamilies /\ Len(hist) = MaxOps)
+    \/ (Family \notin OpsFamilies /\ phase = "done"
+        /\ (out.kind = "dup" => out.chosen = "first"))      \* one record per two-copy text (it carries both readings)
 
 Emit ==
     Complete =>
         PrintT(ToJson(
-            IF Family \in {"ops", "num", "len"} THEN
-                [fam |-> "ops", ver |-> ver, idfmt |-> EventIDFormat(ver), proto |-> ProtoJson(proto), steps |-> hist,
+            IF Family \in OpsFamilies THEN
+                [fam |-> IF Family = "sid" THEN "sid" ELSE "ops", ver |-> ver, idfmt |-> EventIDFormat(ver), proto |-> ProtoJson(proto), steps |-> hist,
                  refuse |-> phase = "refused"]
             ELSE IF Family = "sib" THEN
                 [fam |-> "sib", ver |-> ver, idfmt |-> EventIDFormat(ver), proto |-> ProtoJson(proto), steps |-> hist,
                  f |-> out.f, proto2 |-> ProtoJson(out.proto2), same |-> out.same]
+            ELSE IF out.kind = "dup" THEN
+                \* a member written twice: the two readings, each with what it would be intact and redacted
+                [fam |-> "dup", ver |-> ver, idfmt |-> EventIDFormat(ver), algo |-> A, proto |-> ProtoJson(proto),
+                 pre |-> "none", m |-> out.m, pos |-> out.pos, sp |-> out.sp, hm |-> out.hm, styp |-> out.styp,
+                 first |-> out.first, last |-> out.last, signers |-> DOMAIN sigs]
             ELSE
                 [fam |-> "tamper", ver |-> ver, idfmt |-> EventIDFormat(ver), algo |-> A, proto |-> ProtoJson(proto),
-                 pre |-> IF Len(hist) = 2 THEN hist[1].op ELSE "none",
+                 pre |-> IF Len(hist) = 2 THEN hist[1].op ELSE "none", sp |-> out.sp,
                  T |-> out.T, hm |-> out.hm, kout |-> out.kout, kin |-> out.kin, red |-> out.red, noop |-> out.noop,
                  topk |-> out.topk, conk |-> out.conk, tpik |-> out.tpik, idsame |-> out.idsame,
                  valid |-> out.valid, signers |-> DOMAIN sigs]))
